@@ -15,6 +15,10 @@ def main(argv: list[str]) -> int:
         from . import runner
 
         return runner.worker_main(argv[1:])
+    if argv and argv[0] == "_digests":
+        from . import runner
+
+        return runner.digests_main(argv[1:])
     if argv and argv[0] == "replay":
         ap = argparse.ArgumentParser()
         ap.add_argument("path")
